@@ -87,7 +87,37 @@ def model_quoted():
     return {'cells': cells, 'arrays': {}, 'names': {}, 'sheets': [[M.B, 'Summary'], [M.B, q], [M.B, w], [M.B, d]]}
 
 
-FIXED = dict(M.MODELS, anchor=model_anchor, col=model_col, samesheet=model_samesheet, samesheet2=lambda: model_samesheet(M.C, M.B),
+def model_spillpast():
+    """array-formula blocks that reach beyond the used area of the sheet (only the anchor is a stored cell): a column block
+    F1:F6 below the last used row and a row block G2:K2 right of the last used column; dependents of single far spill cells."""
+    K, cell, rng, op, fn, num, const = M.K, M.cell, M.rng, M.op, M.fn, M.num, M.const
+    cells = {
+        K('S', 'A1'): const(('n', 1.0)), K('S', 'A2'): const(('n', 2.0)),
+        K('S', 'B1'): op('+', cell('S', 'F5'), num(1)), K('S', 'B2'): op('+', cell('S', 'F6'), cell('S', 'A1')),
+        K('S', 'C1'): op('*', cell('S', 'J2'), num(3)), K('S', 'C2'): fn('SUM', rng('S', 'F4:F6'), cell('S', 'K2')),
+    }
+    arrays = {K('S', 'F1:F6'): op('+', op('*', cell('S', 'A1'), num(10)), cell('S', 'A2')), K('S', 'G2:K2'): op('*', cell('S', 'A2'), num(5))}
+    return {'cells': cells, 'arrays': arrays, 'names': {}, 'sheets': [[M.B, 'S']]}
+
+
+def model_dangling(H=M.B, C=M.C):
+    """a linked workbook reached lazily: one reference to a sheet it does not have (intercepted), and valid references to it that
+    sort before and after the dangling one in the completion work-list (sheets Alpha < Gone < Zeta)."""
+    cell = lambda s, c, b=H: ['cell', b, s, c]
+    K = lambda s, c, b=H: M.W.key(b, s, c)
+    op, fn, num, const = M.op, M.fn, M.num, M.const
+    cells = {
+        K('Main', 'A1'): op('*', cell('Zeta', 'A1', C), num(2)),
+        K('Main', 'A2'): op('+', cell('Alpha', 'A1', C), num(1)),
+        K('Main', 'A3'): fn('IFERROR', cell('Gone', 'A1', C), num(5)),
+        K('Main', 'A4'): op('+', fn('SUM', ['rng', C, 'Zeta', 'A1:A2']), cell('Alpha', 'B1', C)),
+        K('Alpha', 'A1', C): const(('n', 10.0)), K('Alpha', 'B1', C): op('+', cell('Alpha', 'A1', C), num(5)),
+        K('Zeta', 'A1', C): const(('n', 21.0)), K('Zeta', 'A2', C): const(('n', 4.0)),
+    }
+    return {'cells': cells, 'arrays': {}, 'names': {}, 'sheets': [[H, 'Main'], [C, 'Alpha'], [C, 'Zeta']], 'strict_sheets': True}
+
+
+FIXED = dict(M.MODELS, spillpast=model_spillpast, dangling=model_dangling, dangling2=lambda: model_dangling(M.C, M.B), anchor=model_anchor, col=model_col, samesheet=model_samesheet, samesheet2=lambda: model_samesheet(M.C, M.B),
              longspill=model_longspill, quoted=model_quoted)
 
 
